@@ -21,6 +21,8 @@ structure DSt where
   muHeld : Bool := false
   closeCancels : Bool := true
   drainBeforeMu : Bool := true
+  retakes : Bool := true
+  retryDeferred : Bool := true
   muQueue : List (Option Nat) := []
 
 def act (d : DSt) (a : Act) : DSt :=
@@ -58,7 +60,7 @@ def stepLine (d : DSt) (line : String) : DSt × String :=
   let ws := words line
   if d.muHeld && !(ws.head? ∈ [some "begin", some "cease", some "wait", some "freemu", some "case"]) then (d, "busy") else
   match ws with
-  | ["case", _] => ({ cfg := d.cfg, closeCancels := d.closeCancels, drainBeforeMu := d.drainBeforeMu }, line)
+  | ["case", _] => ({ cfg := d.cfg, closeCancels := d.closeCancels, drainBeforeMu := d.drainBeforeMu, retakes := d.retakes, retryDeferred := d.retryDeferred }, line)
   | ["holdmu"] =>
     if d.held.isSome then (d, "busy") else
     let d := { d with muHeld := true }
@@ -79,6 +81,13 @@ def stepLine (d : DSt) (line : String) : DSt × String :=
         else (d, acc.2 ++ [s!"{w + 1}:done"])) ({ d with muHeld := false }, [])
     let d := { d with muQueue := [] }
     (d, s!"freemu {" ".intercalate res} {render d}")
+  | ["delpanic"] =>
+    -- the retry of gateway.Delete: take the fresh instance's vigil, DeleteTreasure (panics), give it back —
+    -- with call+defer the exit after the first statement restores the counter, with a plain bracket it does not
+    let shape : List Tok := if d.retryDeferred then [.vigPair, .autoDestroy] else [.vigBegin, .autoDestroy, .vigCeaseNow]
+    let v := (exitAt shape 1 ⟨0, 0⟩).vig
+    if v == 0 then (d, "delpanic panicked=true vig=0 destroy=done")
+    else (d, s!"delpanic panicked=true vig={v} destroy=stuck\t#F:C17-counter-leaks-on-early-exit")
   | ["destroysave"] =>
     -- the LTS of Hv.Conc.VigilMu: one operation in flight (`begin`), `destroy` starts; then everything that can run, runs
     let cfg : Hv.VigilMu.Cfg := ⟨!d.drainBeforeMu⟩
@@ -153,7 +162,10 @@ def stepLine (d : DSt) (line : String) : DSt × String :=
         else (d, s!"expect {k} parked {render d}")
   -- (the last-key Delete: one auto-destroy fired inside a vigil pair ⇒ the dead instance's counter is −1,
   --  `Hv.C17.defer_balance_autodestroy`)
-  | ["rpcs"] => (d, "rpcs calls=7 sys=false vig=false vigdead=-1")
+  | ["rpcs"] =>
+    -- the Delete that empties its swamp: shape [vigPair, autoDestroy] with the auto-destroy firing
+    let v := (exitAt [.vigPair, .autoDestroy] 2 ⟨0, 0⟩ (!d.retakes)).vig
+    (d, s!"rpcs calls=7 sys=false vig=false vigdead={v}" ++ (if v != 0 then "\t#F:C17-double-cease-after-auto-destroy" else ""))
   | _ => (d, "bad-op")
 
 /-! ### Trace inclusion (domain C17s): replay a log of the real vigil under genuine concurrency.
@@ -271,7 +283,7 @@ def run (args : List String) : IO UInt32 := do
   if arg kv "mode" == "trace" then
     lineLoop tstep { cfg := cfg }
     return 0
-  lineLoop stepLine { cfg := cfg, closeCancels := arg kv "closeCancels" != "no", drainBeforeMu := arg kv "drainBeforeSwampMu" != "no" }
+  lineLoop stepLine { cfg := cfg, closeCancels := arg kv "closeCancels" != "no", drainBeforeMu := arg kv "drainBeforeSwampMu" != "no", retakes := arg kv "autoDestroyRetakesVigil" != "no", retryDeferred := arg kv "handlersPaired" != "no" }
   return 0
 
 end Driver.C17
